@@ -2,8 +2,11 @@ import Driver.Util
 import ImmuModel.Index.Indexer
 /-!
 Driver for C04.  One model store per driver process (`c04 new` resets it): declared indexes, the
-committed log, and one multi-version tree per index.  `c04 index <owned|aliased> <B>` runs the model
-of the indexer loop over the not yet indexed transactions in bulks of `B`.
+committed log, and one multi-version tree per index.  `c04 index owned <B> [cap]` runs the model of the
+indexer loop over the not yet indexed transactions in bulks of `sp.maxBulk B` (one tx for an injective
+index, `B` otherwise — what `indexSince` gathers from a backlog).  `c04 quirks <a> <b>` is the harness telling
+which variant of the injective branch its start-of-run probes observed: the model has the repaired code only
+(`0 0`); any other variant, and `index aliased`, is answered `unsupported-variant` (a mismatch).
 -/
 namespace Driver.C04
 open ImmuModel ImmuModel.Index.L
@@ -11,12 +14,10 @@ open ImmuModel ImmuModel.Index.L
 structure IdxSt where
   sp : Spec
   tr : Tree IVal := {}
-  bufs : List Bytes := []
 
 structure St where
   idxs : Array IdxSt := #[]
   logRev : List Tx := []
-  q : Quirks := {}
 
 def parseMapper (s : String) : Option (Option Mapper) :=
   if s == "none" then some none
@@ -75,32 +76,27 @@ def mkEnv (s : St) : Env :=
       | none => none
       | some tx => tx.entries.find? (fun e => e.key == k) }
 
-/-- the indexer loop of index `i`: bulks of `B` from `ts+1` until the log is exhausted -/
-def runIndex (aliased : Bool) (B : Nat) (cap : Option Nat) (i : Nat) : Nat → St → Except IdxErr St
+/-- the indexer loop of index `i`: bulks of `sp.maxBulk B` from `ts+1` until the log is exhausted -/
+def runIndex (B : Nat) (cap : Option Nat) (i : Nat) : Nat → St → Except IdxErr St
   | 0, s => .ok s
   | fuel + 1, s =>
     match s.idxs[i]? with
     | none => .ok s
     | some d =>
-      let pending := (s.logRev.reverse.filter (fun tx => d.tr.ts < tx.id)).take B
+      let pending := (s.logRev.reverse.filter (fun tx => d.tr.ts < tx.id)).take (d.sp.maxBulk B)
       if pending.isEmpty then .ok s
       else
         let env := mkEnv s
-        if aliased then
-          match indexBulkAliased d.sp env (d.tr, d.bufs) pending with
-          | .error x => .error x
-          | .ok (tr, bufs) => runIndex aliased B cap i fuel { s with idxs := s.idxs.set! i { d with tr := tr, bufs := bufs } }
-        else
-          match (match cap with | some c => indexBulkCap c d.sp env d.tr pending | none => indexBulk d.sp env d.tr pending) with
-          | .error x => .error x
-          | .ok tr => runIndex aliased B cap i fuel { s with idxs := s.idxs.set! i { d with tr := tr } }
+        match (match cap with | some c => indexBulkCap c d.sp env d.tr pending | none => indexBulk d.sp env d.tr pending) with
+        | .error x => .error x
+        | .ok tr => runIndex B cap i fuel { s with idxs := s.idxs.set! i { d with tr := tr } }
 
-def runAll (aliased : Bool) (B : Nat) (cap : Option Nat) (s : St) : Except (Nat × IdxErr) St :=
+def runAll (B : Nat) (cap : Option Nat) (s : St) : Except (Nat × IdxErr) St :=
   (List.range s.idxs.size).foldl (fun acc i =>
     match acc with
     | .error x => .error x
     | .ok s =>
-      match runIndex aliased B cap i (s.logRev.length + 1) s with
+      match runIndex B cap i (s.logRev.length + 1) s with
       | .error x => .error (i, x)
       | .ok s' => .ok s') (.ok s)
 
@@ -121,12 +117,12 @@ def step (s : St) : List String → St × String
   | ["new"] => ({}, "ok")
   | ["quirks", a, b] =>
     match parseBool a, parseBool b with
-    | some a, some b => ({ s with q := { lookupAtBulkStart := a, tombKeepsPrevMd := b } }, "ok")
+    | some a, some b => (s, if a || b then "unsupported-variant" else "ok")
     | _, _ => (s, "bad-op")
   | ["idx", sp, tp, sm, tm, inj] =>
     match Bytes.ofHex sp, Bytes.ofHex tp, parseMapper sm, parseMapper tm, parseBool inj with
     | some sp, some tp, some sm, some tm, some inj =>
-      ({ s with idxs := s.idxs.push { sp := { srcPrefix := sp, tgtPrefix := tp, smap := sm, tmap := tm, injective := inj, q := s.q } } },
+      ({ s with idxs := s.idxs.push { sp := { srcPrefix := sp, tgtPrefix := tp, smap := sm, tmap := tm, injective := inj } } },
         toString s.idxs.size)
     | _, _, _, _, _ => (s, "bad-op")
   | "tx" :: id :: es =>
@@ -138,14 +134,15 @@ def step (s : St) : List String → St × String
     | none => (s, "bad-op")
     | some b =>
       if b = 0 ∨ (mode ≠ "owned" ∧ mode ≠ "aliased") then (s, "bad-op")
-      else match runAll (mode == "aliased") b none s with
+      else if mode == "aliased" then (s, "unsupported-variant")
+      else match runAll b none s with
         | .error (i, x) => (s, s!"{fmtIdxErr x}@{i}")
         | .ok s' => (s', "ok " ++ fmtList (s'.idxs.toList.map fun d => toString d.tr.ts))
   | ["index", mode, b, cap] =>
     match b.toNat?, cap.toNat? with
     | some b, some cap =>
       if b = 0 ∨ mode ≠ "owned" then (s, "bad-op")
-      else match runAll false b (some cap) s with
+      else match runAll b (some cap) s with
         | .error (i, x) => (s, s!"{fmtIdxErr x}@{i}")
         | .ok s' => (s', "ok " ++ fmtList (s'.idxs.toList.map fun d => toString d.tr.ts))
     | _, _ => (s, "bad-op")
